@@ -1,2 +1,2 @@
 """Sidecar contracts, one module per lcm module (keyed by qualified name of the target)."""
-from . import argmax, c_functools, discrete_problem, dispatchers, function_representation, grid_helpers, grids, input_processing, lemmas, ndimage, solve, state_space, user_model  # noqa: F401
+from . import argmax, c_functools, discrete_problem, dispatchers, function_representation, grid_helpers, grids, input_processing, lemmas, ndimage, simulate, solve, state_space, user_model  # noqa: F401
